@@ -87,7 +87,31 @@ func escapeRules(p *core.Program, r *core.Report) {
 				decDefaultErrors = defErr
 				// digit counts: nested switch assigning n = k under case letters
 				// (in the decoder itself or in an unexported helper it calls: `n = k` or `return k`)
-				eng.InspectInlined(p, info, p.Pkg("parser/lexer").Types, sw, 2, func(fn *types.Func, _ *ast.FuncDecl) bool { return !fn.Exported() }, func(m ast.Node, _ *eng.InlineCtx, _ int) bool {
+				var defaultK *int64
+				var defaultAt token.Pos
+				eng.InspectInlined(p, info, p.Pkg("parser/lexer").Types, sw, 2, func(fn *types.Func, _ *ast.FuncDecl) bool { return !fn.Exported() }, func(m ast.Node, ctx *eng.InlineCtx, _ int) bool {
+					// a helper's count for "every other introducer": the return after its switch,
+					// or its default clause
+					if ctx != nil && ctx.Callee != nil && ctx.Depth == 1 {
+						if rs, ok := m.(*ast.ReturnStmt); ok && len(rs.Results) == 1 {
+							top := false
+							for _, st := range ctx.Callee.Body.List {
+								if st == ast.Stmt(rs) {
+									top = true
+								}
+							}
+							if k, ok := runeConst(info, rs.Results[0]); ok && top {
+								defaultK, defaultAt = &k, ctx.Call.Pos()
+							}
+						}
+						if cc, ok := m.(*ast.CaseClause); ok && cc.List == nil && len(cc.Body) == 1 {
+							if rs, ok := cc.Body[0].(*ast.ReturnStmt); ok && len(rs.Results) == 1 {
+								if k, ok := runeConst(info, rs.Results[0]); ok {
+									defaultK, defaultAt = &k, ctx.Call.Pos()
+								}
+							}
+						}
+					}
 					in, ok := m.(*ast.SwitchStmt)
 					if !ok || in == sw {
 						return true
@@ -121,6 +145,20 @@ func escapeRules(p *core.Program, r *core.Report) {
 					}
 					return true
 				})
+				if defaultK != nil {
+					for _, c := range sw.Body.List {
+						cc := c.(*ast.CaseClause)
+						if cc.Pos() <= defaultAt && defaultAt < cc.End() {
+							for _, ex := range cc.List {
+								if ch, ok := runeConst(info, ex); ok {
+									if _, set := decDigits[rune(ch)]; !set {
+										decDigits[rune(ch)] = *defaultK
+									}
+								}
+							}
+						}
+					}
+				}
 			}
 			return true
 		})
